@@ -699,6 +699,13 @@ func display(computer *ComputedStyle, _ pr.KnownProp, _value pr.CssProperty) pr.
 			}
 		}
 	}
+	// The display value of a flex item is blockified, see https://www.w3.org/TR/css-flexbox-1/#flex-items.
+	// Internal table boxes would otherwise be dropped from the flex container.
+	if computer.parentStyle != nil && computer.parentStyle.GetDisplay().Has("flex") {
+		if d := value[0]; value[1] == "" && value[2] == "" && strings.HasPrefix(d, "table-") {
+			return pr.Display{"block", "flow"}
+		}
+	}
 	return value
 }
 
